@@ -23,7 +23,7 @@ RULE = ('output specs: port trees to depth 2 (thorough 3) over names {a, ab, n, 
 ASSUMPTIONS = ['a fresh Process class per case (emitting into a dynamic namespace adds namespaces to the class spec)',
                'reference model written from the statement; namespace creation by earlier emissions is tracked by the model']
 REQUIRED = ['emissions', 'accepted', 'rejected', 'rejected_valueerror', 'dynamic_accepted', 'nested_paths', 'unchanged_checks', 'listener_checks',
-            'success/true', 'success/false_by_outputs', 'dict_values']
+            'success/true', 'success/false_by_outputs', 'dict_values', 'identity_checks']
 BOUNDS = {'quick': '300 specs x 12 emission sequences', 'thorough': '3000 specs x 25 sequences'}
 NAMES = ['a', 'ab', 'n', 'x']
 UN = c11.UN
@@ -55,8 +55,10 @@ def rand_out_ns(rng, depth, top=False):
         attrs['valid_type'] = rng.choice(['int', 'str', 'A'])
     if rng.random() < 0.15:
         attrs['validator'] = 'nsv_no_x'
+    elif rng.random() < 0.15:
+        attrs['validator'] = 'nsv_some'  # "at least one result has to be emitted here"
     children = {}
-    for name in rng.sample(NAMES, rng.randint(0 if not top else 1, 3)):
+    for name in rng.sample(NAMES, rng.randint(0, 3) if not top or attrs.get('validator') == 'nsv_some' else rng.randint(1, 3)):
         children[name] = rand_out_ns(rng, depth - 1) if depth > 0 and rng.random() < 0.4 else rand_out_port(rng)
     return ['ns', attrs, children]
 
@@ -263,6 +265,19 @@ def _can_store(outputs, path):
     return True
 
 
+def _objects(mapping, prefix=''):
+    """path -> object for the values that have an identity worth comparing (class instances, lists)."""
+    out = {}
+    if not isinstance(mapping, (dict, plumpy.utils.Frozendict)):
+        return out
+    for k, v in mapping.items():
+        if isinstance(v, (dict, plumpy.utils.Frozendict)):
+            out.update(_objects(v, prefix + k + '.'))
+        elif isinstance(v, (A, list)):
+            out[prefix + k] = v
+    return out
+
+
 def run_case(case):
     V = judges.V
     spec = case['spec']
@@ -290,6 +305,12 @@ def run_case(case):
         fut = proc.future()
         fut_result = c11.plain(fut.result()) if fut.done() and not fut.cancelled() and fut.exception() is None else ['no-result', repr(fut)]
         outputs = c11.plain(proc.outputs)
+        # the objects the future (and through it execute() and the finished listeners) reports are the stored ones, not copies
+        same_objects = None
+        if state == 'finished' and fut.done() and not fut.cancelled() and fut.exception() is None:
+            stored, reported = _objects(proc.outputs), _objects(fut.result())
+            obs['identity_checks'] = len(stored)
+            same_objects = [p for p in stored if stored[p] is not reported.get(p)]
         is_successful = proc.is_successful
         result = proc.result() if state == 'finished' else None
         exc_desc = repr(proc.exception()) if state == 'excepted' else None
@@ -353,6 +374,8 @@ def run_case(case):
         if state != 'finished':
             viol.append(V('not-finished', 'not-finished:%s' % state, 'process ended %s (%s) (spec %s, emissions %r)' % (state, exc_desc, shape, case['emissions'])))
         else:
+            if same_objects:
+                viol.append(V('future-other-objects', 'future-other-objects', 'future().result() reports other objects than the stored ones at %s (outputs %r)' % (same_objects, outputs)))
             if fut_result != outputs:
                 viol.append(V('future-differs', 'future-differs', 'future().result() %r differs from outputs %r' % (fut_result, outputs)))
             if is_successful != exp_success:
